@@ -146,6 +146,15 @@ func (valdec mapDecoder) decodeMap(dec *Decoder, p interface{}) {
 		}
 		valdec.decodeKey(dec, kt, kp)
 		valdec.decodeValue(dec, vt, vp)
+		if valdec.kt.Kind() == reflect.Interface {
+			// a list or a map can arrive where an interface{} key is expected: not hashable
+			if key := *(*interface{})(kp); key != nil && !reflect.TypeOf(key).Comparable() {
+				if dec.Error == nil {
+					dec.Error = DecodeError("hprose/io: a " + reflect.TypeOf(key).String() + " can not be a map key")
+				}
+				break
+			}
+		}
 		valdec.t.UnsafeSetIndex(mp, kp, vp)
 	}
 	dec.Skip()
